@@ -47,11 +47,16 @@ def _name(facts, n):
     return None
 
 
+def axis_domain(facts):
+    # the abbreviated step is `@` (attribute::) or empty (child::): two values of the dispatching input
+    return enumflow.Domain(facts, "model::AxisSpecifier", "model::AxisName", "Name", split={"Abbreviated": ["@"]})
+
+
 def axis_table(facts, is_target, rule="C05-axis"):
     """-> (domain, {axis value (AxisName variants and 'Abbreviated'): set of target names}, number of uses found)"""
     f = facts.fn(AXIS_ENTRY)
     try:
-        dom = enumflow.Domain(facts, "model::AxisSpecifier", "model::AxisName", "Name")
+        dom = axis_domain(facts)
         hits = enumflow.Flow(dom, f).run(lambda n: bool(_name(facts, n)) and is_target(_name(facts, n)))
     except enumflow.Unknown as u:
         raise BrokenCheck("%s: %s" % (rule, u))
